@@ -25,6 +25,8 @@ MODULES = {
     "C01": ("mcx.checks.c01", {"pid": "C01"}),
     "C05": ("mcx.checks.c01", {"pid": "C05"}),
     "C04": ("mcx.checks.c04", {}),
+    "C08": ("mcx.checks.c08", {}),
+    "C10": ("mcx.checks.c10", {}),
     "C12": ("mcx.checks.c12", {}),
     "C19": ("mcx.checks.c19", {}),
 }
